@@ -130,7 +130,26 @@ def run(ctx):
             if not any(kw) or all(kw):
                 continue
             n_cmp += 1
-            other = vs[1] if kw[0] else vs[0]
+            # calls on the way from the text operand back to where it was read, inside this routine
+            oa = t["args"][1] if kw[0] else t["args"][0]
+            other, work, seen_l = set(), [oa], set()
+            while work and len(seen_l) < 60:
+                o = work.pop()
+                q = o.get("cp") or o.get("mv") if isinstance(o, dict) else None
+                if q is None or q["l"] in seen_l:
+                    continue
+                seen_l.add(q["l"])
+                for d in b.defs.get(q["l"], []):
+                    if d[2] == "call":
+                        other.add(callee_name(d[3]) or "")
+                        work.extend(d[3]["args"])
+                    elif d[2] == "assign":
+                        rv = d[3]["rv"]
+                        for k in ("o", "l", "r"):
+                            if k in rv and isinstance(rv[k], dict):
+                                work.append(rv[k])
+                        if rv["k"] in ("ref", "rawptr"):
+                            work.append({"cp": rv["p"]})
             key = "%s/eq-keyword" % f.short
             if any(x.endswith("to_ascii_uppercase") or x.endswith("to_uppercase") or x.endswith("eq_ignore_ascii_case") for x in other):
                 ctx.ok("R04.2", key, "text upper-cased before the comparison")
